@@ -15,5 +15,35 @@ pub fn all() -> Vec<CheckDef> {
         real: vec!["Tunnel", "HttpDownstream", "Http1Codec", "Http2Codec (h2 0.3 server)", "TcpForwarder", "DuplexPipe/SimplexPipe", "RegistryBasedAuthenticator", "Metrics"],
         simulated: vec!["client transport", "outbound TCP sockets", "clock (tokio paused)", "task scheduling (current-thread, seeded select!)", "HTTP/2 client = h2 0.3 client driven by the plan"],
         not_run: vec!["TLS", "QUIC/HTTP3"],
+    },
+    CheckDef {
+        property: "C01",
+        scenarios: vec![("auth", 100)],
+        level: "exploration",
+        rule: "sessions of 1-6 requests (HTTP/2: concurrent streams on one session; HTTP/1.1: one request per connection) drawn from the master seed over 17 Proxy-Authorization classes x 7 request kinds x 3 authenticator configurations x 3 SNI-credential states; each request targets a destination no other request uses, so resolver queries and connects are attributable; non-trivial = at least one request whose reference verdict is 'unauthorised' (or an authorised one answered) was actually sent and judged; distinct = distinct world event trace",
+        assumptions: vec![KERNEL, NO_H3, "the TLS layer is skipped: SNI credentials are handed to the session door as TlsDemux would extract them (the extraction itself is C05's subject)", "EITHER where RFC 7235/7617 and the statement leave it open: lower-case scheme, unpadded base64, trailing space on HTTP/2, duplicated headers, bad header on a connection with accepted SNI credentials"],
+        real: vec!["Tunnel::listen_inner (the five-way match)", "http_codec::PendingRequest::auth_info", "HttpDownstream", "Http1Codec", "Http2Codec", "RegistryBasedAuthenticator", "Core::on_tunnel_request (SNI authentication)", "TcpForwarder"],
+        simulated: vec!["client transport", "resolver", "outbound TCP", "clock"],
+        not_run: vec!["TLS", "QUIC/HTTP3"],
+    },
+    CheckDef {
+        property: "C10",
+        scenarios: vec![("responses", 100)],
+        level: "exploration",
+        rule: "requests over methods x authorities (reserved names, look-alikes, literals, names with/without port) x every outcome of the outbound attempt (ok, refused, net/host unreachable, timed out, never, EMFILE, other, resolver error/empty/never, policy refusal) x both protocols; reference table from the statement decides status and X-Warning; non-trivial = an authorised request was answered and judged against the table; distinct = distinct world event trace",
+        assumptions: vec![KERNEL, NO_H3, "durations within 2 ms of the establishment time-out are undecided (tokio timer wheel granularity)", "_icmp without ICMP configured: either answer"],
+        real: vec!["HttpDownstream::PendingRequest::promote_to_next_state", "tunnel_error_to_status_code / tunnel_error_to_warn_header", "Tunnel::on_tcp_connect_request", "TcpForwarder::connect / io_to_connection_error", "Http1Codec", "Http2Codec"],
+        simulated: vec!["client transport", "resolver", "outbound TCP (every connect outcome)", "clock"],
+        not_run: vec!["TLS", "QUIC/HTTP3"],
+    },
+    CheckDef {
+        property: "C03",
+        scenarios: vec![("egress", 100)],
+        level: "exploration",
+        rule: "enumerated part: every boundary (first-1, first, middle, last, last+1) of every IANA special-purpose block as IPv4 literal, IPv4-mapped IPv6 literal and host name, both values of the policy flag, and the first IPv6 hextet swept (every 16th value with all low nibbles in quick, all 65536 in thorough); sampled part: sessions of up to 12 requests with literals and names resolving to 1-3 addresses of mixed classes, resolver rebinding, both flags; oracle = independent classifier (must-refuse / must-allow / either) + connect census; non-trivial = an authorised request reached the policy decision; distinct = distinct world event trace",
+        assumptions: vec![KERNEL, NO_H3, "the exhaustive 2^32 sweep named in the quantifier is enumeration, not simulation: block boundaries are enumerated, interiors sampled", "EITHER: multicast, 6to4, Teredo/2001::/23, NAT64, benchmarking, 192.0.0.0/24, 192.88.99.0/24, addresses outside 2000::/3, IPv6 with ipv6_available=false, IPv4-mapped forms of global addresses"],
+        real: vec!["net_utils::is_global_ip*", "TcpForwarder::connect", "http_downstream::TcpConnection::destination", "Tunnel", "codecs"],
+        simulated: vec!["resolver (planned answers, rebinding, getaddrinfo numeric forms)", "outbound TCP", "client transport", "clock"],
+        not_run: vec!["TLS", "QUIC/HTTP3"],
     }]
 }
